@@ -81,6 +81,7 @@ pub fn c07(ctx: &Ctx, subj: &dyn DynSubject, ty: &Ty, rep: &mut Report) {
         // (1) every block is preceded by an Align event for the same unit; start % unit == 0; minimal zero gap
         let mut last_align: Option<(usize, usize)> = None;
         let mut gap_seen = false;
+        let mut gaps: Vec<(usize, usize)> = vec![];
         let mut deferred: Option<Fail> = None;
         for e in &events {
             match e {
@@ -113,6 +114,7 @@ pub fn c07(ctx: &Ctx, subj: &dyn DynSubject, ty: &Ty, rep: &mut Report) {
                     }
                     if pos > &q {
                         gap_seen = true;
+                        gaps.push((q, *pos));
                     }
                     log.classes.push(format!("residue-{}-of-{}", q % u, u));
                 }
@@ -168,6 +170,29 @@ pub fn c07(ctx: &Ctx, subj: &dyn DynSubject, ty: &Ty, rep: &mut Report) {
             }
             Ok(Err(e)) => return Err(Fail::new(&format!("eps-error:{}", err_name(&e)), format!("ε-copy failed with trailing garbage: {:?}", e))),
             Err(p) => return Err(Fail::new(&format!("eps-panic:{}", panic_class(&p)), format!("ε-copy panicked: {}", p))),
+        }
+        // (4) history: after this thread has read a stream whose gaps hold garbage (deserializers skip padding
+        // without looking at it), the gaps of the next serialization are still zeros
+        if !gaps.is_empty() && deferred.is_none() {
+            let mut dirty = bytes.clone();
+            for (q, p) in &gaps {
+                for b in &mut dirty[*q..*p] {
+                    *b = 0xA5;
+                }
+            }
+            let read_full = matches!(guard(|| subj.full(&mut std::io::Cursor::new(&dirty[..]))), Ok(Ok(_)));
+            let pd = crate::faults::Placed::new(&dirty, l2.max(64), 0);
+            let read_eps = matches!(guard(|| subj.eps(pd.bytes()).map(|_| ())), Ok(Ok(())));
+            if read_full || read_eps {
+                log.classes.push("reserialized-after-dirty-padding".into());
+                log.extra_evals += 1;
+                let (again, _) = ser_bytes(subj, v)?;
+                for (q, p) in &gaps {
+                    if again.len() != bytes.len() || again[*q..*p].iter().any(|b| *b != 0) {
+                        return Err(Fail::new("gap-not-zero-after-dirty-read", format!("after deserializing a stream whose padding held 0xA5 bytes, the next serialization of the same value wrote non-zero padding at {}..{} (or a stream of different length)", q, p)));
+                    }
+                }
+            }
         }
         match deferred {
             Some(f) => Err(f),
